@@ -341,7 +341,9 @@ func (e *Engine) runPath(run *HarnessRun, item workItem) *PathResult {
 	case "budget":
 		p.addViolation(e, "hang", "budget:"+topLibFrame(p.PanicStack), e.ensureModel(), p.Msg)
 	}
-	if p.Status == "ok" || p.Status == "stop" {
+	// paths whose observations depend on uninterpreted results (strconv.ParseFloat of
+	// a symbolic text) cannot be predicted by the engine: not used as validation traces
+	if (p.Status == "ok" || p.Status == "stop") && len(p.pfMemo) == 0 {
 		if m := e.ensureModel(); m != nil {
 			p.Sample = &Candidate{Harness: run.Name, Params: run.Params, Kind: "sample", Tags: p.Tags, Values: p.concreteValues(e, m), Observed: p.predicted(e, m)}
 		}
